@@ -365,6 +365,8 @@ func checkC16(c *Ctx) {
 		r.Undecided("C16.b", "transpileOne", "definition", "fc", "anchor function not found")
 	}
 	checkFileAPIs(c, "C16.b", f)
+	// complete output: every .fo argument is written (the condition of the write is the suffix test only)
+	checkTranspileOneForm(c, f, "C16.b")
 
 	// (c)
 	checkDiagnostics(c, f)
